@@ -10,7 +10,7 @@ RULE = ("programs drawn shape-first (chain/tree/comb/diamond/re-entry comb/stagg
 ASSUMPTIONS = ["item values are a function of (kind, argument) only, so every flush order must give the same answer",
                "flush orders are steered through get_priority tables (a superset of what the default tie-break can produce for batches of different kinds)"]
 
-CFG = dict(sync=True, shared_lazy=1, tools=("dd", "alru", "agen", "amap", "asorted", "amin", "amax", "afilter", "retry", "cwc"),  ctx=("rec", "ov"), dag=True, orphans=True, reyield=True, itemvalue=True, convs=("call", "value", "wrapper"),
+CFG = dict(sync=True, shared_lazy=1, premade=True, tools=("dd", "alru", "agen", "amap", "asorted", "amin", "amax", "afilter", "retry", "cwc"),  ctx=("rec", "ov"), dag=True, orphans=True, reyield=True, itemvalue=True, convs=("call", "value", "wrapper"),
            shapes=("chain", "tree", "comb", "diamond", "reentry", "stagger", "free", "free"))
 
 
